@@ -97,6 +97,30 @@ def reviewedMapRanges : List (String × String × Nat) :=
 /-- a map range that is not on the reviewed list breaks this obligation until it is reviewed -/
 theorem map_ranges_reviewed : ∀ r ∈ Gen.mapRanges, r ∈ reviewedMapRanges := by decide
 
+/-- What each reviewed loop hands from one iteration to the next (plain variables declared outside the loop body
+and assigned inside it): collectors that are sorted afterwards (`sortedSignatures`, `classes`, `names`), a maximum
+(`maxArgumentIndex`), a minimum over frames (`target`) — and nothing for the loops whose iterations are per-key
+updates. An accumulator hoisted out of such a loop (the body of `narrowing` builds `variants` afresh for every
+variable) makes the result depend on Go's map order and shows up here. -/
+def reviewedCarried : List (String × String × Nat × List String) :=
+  [("base/signature.go", "GetSortedTSignatures", 1, ["sortedSignatures"]),
+   ("base/signature.go", "GetSortedTSignaturesByClass", 1, ["sortedSignatures"]),
+   ("base/t_frame.go", "RestoreArgumentTypes", 1, []),
+   ("base/t_frame.go", "RestoreFrame", 1, []),
+   ("cmd/c2json/main.go", "inferArguments", 1, ["maxArgumentIndex"]),
+   ("cmd/out.go", "PrintTargetClassExtends", 1, ["target"]),
+   ("cmd/out.go", "printAllClasses", 1, []),
+   ("cmd/out.go", "printAllClasses", 2, ["classes"]),
+   ("cmd/out.go", "printInheritanceMap", 1, []),
+   ("cmd/out.go", "printMatchingSignatures", 1, []),
+   ("cmd/rbs2json/main.go", "convertDeclarations", 1, []),
+   ("cmd/rbs2json/main.go", "sortedKeywordNames", 1, ["names"]),
+   ("eval/ifunless.go", "narrowing", 1, []),
+   ("main.go", "cleanSimpleIdentifires", 1, [])]
+
+/-- the loop-carried variables of every map range are the reviewed ones -/
+theorem map_range_carried_reviewed : Gen.mapRangeCarried = reviewedCarried := by decide
+
 /-- non-vacuity: two overloads that tie on method, class and frame are separated by Detail -/
 example :
     let a : Sig := ⟨"test".toList, "Test.test(Integer)".toList, "Builtin".toList, "Test".toList, false, false, "unknown".toList, 0, []⟩
